@@ -171,65 +171,44 @@ def rule_b(ctx, out):
     params = g.params
     if len(params) < 3:
         raise AnalysisError("block_has_been_optimized signature changed")
-    orig, opt, crit = params[:3]
-    # savings: name -> attribute, and orientation original - optimized
-    savings = {}
-    for n in own_nodes(g.node):
-        if isinstance(n, ast.Assign) and len(n.targets) == 1 and isinstance(n.targets[0], ast.Name) \
-                and isinstance(n.value, ast.BinOp) and isinstance(n.value.op, ast.Sub):
-            l, r = n.value.left, n.value.right
-            if isinstance(l, ast.Attribute) and isinstance(r, ast.Attribute) and l.attr == r.attr \
-                    and isinstance(l.value, ast.Name) and isinstance(r.value, ast.Name):
-                savings[n.targets[0].id] = (l.attr, l.value.id, r.value.id)
-    ATTR_OF = {"size": "bytes_required", "gas": "gas_spent", "length": "length"}
-    for name, (attr, lhs, rhs) in sorted(savings.items()):
-        if (lhs, rhs) == (orig, opt):
-            out.ok({"saving": name, "is": f"{orig}.{attr} - {opt}.{attr}"})
-        else:
-            out.bad(f"block_has_been_optimized:saving-orientation:{attr}", f"saving `{name}` is computed as {lhs}.{attr} - {rhs}.{attr}; "
-                    f"a saving must be original minus optimized", where(g))
-    if len(savings) < 3:
-        raise AnalysisError("block_has_been_optimized: the three savings (size, gas, length) were not recognised")
-    # evaluate the return expression for every criterion and every sign vector of the savings
-    rets = [n for n in own_nodes(g.node) if isinstance(n, ast.Return)]
-    if len(rets) != 1:
-        raise AnalysisError("block_has_been_optimized: expected a single return")
-    by_attr = {attr: name for name, (attr, _, _) in savings.items()}
+    # evaluated as a whole (own interpreter) on stand-in blocks for every criterion and every sign vector of the three savings
+    # (original minus optimized in bytes, gas, length)
+    from ..core.interp import ModuleInterp
+
+    class Blk:
+        def __init__(self, size, gas, length):
+            self.bytes_required, self.gas_spent, self.length = size, gas, length
 
     def reference(sv0, others):
         return sv0 > 0 or (sv0 == 0 and all(o >= 0 for o in others) and any(o > 0 for o in others))
 
     def ref_improves(*args):
         return reference(args[0], args[1:])
-
-    for criterion, attr in ATTR_OF.items():
-        main = by_attr.get(attr)
-        if main is None:
-            out.bad(f"block_has_been_optimized:no-saving-for:{criterion}", f"no saving computed from .{attr}", where(g))
-            continue
-        for combo in itertools.product(SIGNS, repeat=len(savings)):
-            env = dict(zip(sorted(savings), combo))
-            env[crit] = criterion
-            env["improves_criterion"] = ref_improves
-            ev2 = Evaluator(ast.FunctionDef(name="_r", args=ast.arguments(posonlyargs=[], args=[], kwonlyargs=[], kw_defaults=[], defaults=[]),
-                                            body=[rets[0]], decorator_list=[]), globals_env=env)
+    mi = ModuleInterp(ctx, obj_types=(Blk,), extern={"improves_criterion": ref_improves}, max_steps=20000)
+    ORDER = ("size", "gas", "length")
+    for criterion in ORDER:
+        for combo in itertools.product(SIGNS, repeat=3):
+            sv = dict(zip(ORDER, combo))
             try:
-                got = bool(ev2.call())
+                got = bool(mi.call(g, Blk(10 + sv["size"], 10 + sv["gas"], 10 + sv["length"]), Blk(10, 10, 10), criterion))
+            except Raised as e:
+                out.bad(f"block_has_been_optimized:{criterion}:raises", f"block_has_been_optimized raises {e.what} (criterion '{criterion}', savings {sv})", where(g))
+                continue
             except Unsupported as e:
-                raise AnalysisError(f"block_has_been_optimized: cannot evaluate return abstractly: {e}")
-            sv0 = env[main]
+                raise AnalysisError(f"block_has_been_optimized: cannot evaluate abstractly: {e}")
+            sv0 = sv[criterion]
             # necessary conditions of C08: accepted => not worse in the chosen criterion; strictly better => accepted
             if got and sv0 < 0:
-                out.bad(f"block_has_been_optimized:{criterion}:accepts-worse", f"criterion '{criterion}': a candidate with a negative "
-                        f"saving in .{attr} is accepted (signs {env})", where(g, rets[0]))
+                out.bad(f"block_has_been_optimized:{criterion}:accepts-worse", f"criterion '{criterion}': a candidate that is worse in the chosen criterion "
+                        f"is accepted (savings original - optimized: {sv})", where(g))
             elif not got and sv0 > 0:
-                out.bad(f"block_has_been_optimized:{criterion}:rejects-better", f"criterion '{criterion}': a strictly cheaper candidate is rejected",
-                        where(g, rets[0]))
-            elif got and sv0 == 0 and all(v <= 0 for k, v in env.items() if k in savings and k != main):
+                out.bad(f"block_has_been_optimized:{criterion}:rejects-better", f"criterion '{criterion}': a strictly cheaper candidate is rejected "
+                        f"(savings original - optimized: {sv})", where(g))
+            elif got and sv0 == 0 and all(v <= 0 for k, v in sv.items() if k != criterion):
                 out.bad(f"block_has_been_optimized:{criterion}:accepts-tie-without-gain", f"criterion '{criterion}': candidate equal in the "
-                        f"criterion and better in nothing is accepted", where(g, rets[0]))
+                        f"criterion and better in nothing is accepted (savings {sv})", where(g))
             else:
-                out.ok({"criterion": criterion, "signs": {k: v for k, v in env.items() if k in savings}, "accepted": got})
+                out.ok({"criterion": criterion, "savings": sv, "accepted": got})
     # unknown criterion string must not accept
     # ---- compare_best_block ---------------------------------------------------------------------------
     h = ctx.func(f"{GASOL}.compare_best_block")
